@@ -143,8 +143,8 @@ CHECKS['C03'] = dict(
 )
 
 CHECKS['C04'] = dict(
-    text=('Proof over a model of the parent-side control logic (is_alive / wait / terminate / close of thread, process and persistent process '
-          'workers) against a child of any class (cooperative, swallowing, blocked in C, interpreter lock held, stopped): for every state and '
+    text=('Proof over a model of the parent-side control logic (is_alive / wait / terminate / close of thread, process, persistent process and '
+          'persistent thread workers) against a child of any class (cooperative, swallowing, blocked in C, interpreter lock held, stopped): for every state and '
           'operation a call issues at most four blocking primitives, each bounded by the caller\'s finite timeout; the returned boolean equals the '
           'child\'s absence at return (an invariant of every history); on a dead or never-run worker every call returns True at once and changes '
           'nothing; terminate(force=True) of a process worker leaves no child. All by exhaustive case analysis in Coq. The REAL methods are run '
@@ -236,6 +236,42 @@ CHECKS['C20'] = dict(
     note=('A server that accepts and then stays silent for ever without closing is outside the property (no failure is observable). The semantics of '
           'the shapes (Server/Handshake.v) is hand-written. ' + COMMON_NOTE),
     technique='machine-checked finite-domain proof (Coq) over start-up shapes regenerated from the source + real constructors against a scripted server',
+)
+
+CHECKS['C09'] = dict(
+    text=('Proof over two models. (a, c) PoolLife/Model.v: the registry of a Pool (add_worker with its failure paths, attach, restart_workers, '
+          'close / terminate / leaving the with-block) composed with the control model of the workers (Ctrl/Model.v): for EVERY history of these '
+          'operations and kills, with children of any class (cooperative, swallowing, blocked in C, interpreter lock held, stopped), once the pool '
+          'is closed every process worker it ever held - registered, dropped by a failed registration, replaced by a restart - has no child left, '
+          'unless forced termination was disabled; a failed add_worker leaves the registry unchanged and the half-built worker terminated; a closed '
+          'pool accepts nothing. (b) Pool/Model.v [rounds]: for every sequence of runs with deaths inside and kills, complete or partial '
+          'restart_workers between them, a run that returns holds exactly one result per input of THAT run (invariant: the pool is quiet between '
+          'runs). Correspondence: the real Pool holding real persistent process/thread worker objects with scripted children (all histories of '
+          'length <= 3 over 19 operation tokens + random ones), the real Pool.run/restart_workers over consecutive scripted runs, and real pools of '
+          'thread+process (thorough: +remote) workers with stuck/killed children checked in /proc.'),
+    design='5/C09',
+    note=('Remote workers are not in the control model: for them the wait/terminate contract is an assumption exercised on real remote workers '
+          '(thorough tier). OS-level death itself (SIGTERM/SIGKILL delivery, reaping) is the reaction table of Ctrl/Model.v, validated on real children by '
+          'C04 and by the /proc checks here. Worker ids of live workers are assumed unique. "Restarted workers are handed work again" and "dead workers '
+          'are never handed work" are checked by the direct oracle on the implementation, not stated as theorems. Both models are hand-written and '
+          'pinned to the source by hash (tools/pin.py). ' + COMMON_NOTE),
+    technique='machine-checked invariant proofs (Coq) over hand-written models + differential correspondence on histories + real-process exploration',
+)
+CHECKS['C17'] = dict(
+    text=('Proof over PoolLife/Model.v [restart_w] (PersistentWorker.restart over the control model): for every kind, every state of the old '
+          'incarnation reachable by any history of is_alive / wait / terminate / close on a child of any class, and every timeout, restart either '
+          'returns - then the old child is gone and the new incarnation is a fresh live worker of the same kind under the new id - or raises and the '
+          'old child is still the live registered one: never abandoned and replaced; a process worker can always be stopped, so its restart never '
+          'raises; Pool.restart_workers lets go of dead incarnations only. Correspondence: the real restart() on real persistent process/thread '
+          'worker objects with a scripted child after every short history; real thread/process (thorough: remote) workers brought into the seven '
+          'states of the property, restarted up to three times with and without a caller-supplied results pipe, then used again (identity, name, '
+          'userid, target, defaults, empty new stream, counter from zero, old pid gone).'),
+    design='5/C17',
+    note=('The equivalence of the new incarnation (same target/defaults/name/userid), the emptiness of the new result stream and the counter starting '
+          'from zero follow from __init__ being re-run with the saved constructor arguments and a new pipe; they are exercised on real workers, not '
+          'modelled. Fresh ids are an OS assumption. restart(timeout=None) on an uncooperative target blocks by design and is outside the check. '
+          'Remote workers only in the thorough tier. ' + COMMON_NOTE),
+    technique='machine-checked proof (Coq) over a hand-written model + differential correspondence + real-worker exploration',
 )
 
 NOT_YET = {}
